@@ -35,7 +35,12 @@ func main() {
 		os.Exit(cmdReplay(os.Args[2]))
 	case "selftest":
 		os.Exit(cmdSelftest(os.Args[2:]))
+	case "params":
+		os.Exit(cmdParams())
 	case "baseline":
+		if len(os.Args) > 2 && os.Args[2] == "thorough" {
+			os.Exit(cmdBaselineThorough())
+		}
 		os.Exit(cmdBaseline())
 	default:
 		fmt.Fprintln(os.Stderr, "unknown command", os.Args[1])
